@@ -1,0 +1,20 @@
+//go:build verif
+
+// Contracts for package fields, checked by /verif (govc). Comment-only.
+package fields
+
+// The Must* writers panic only when the underlying io.Writer fails. Their
+// callers under contract write to in-memory buffers (wal.bufferSegment,
+// sst.entryBuffer) whose Write never returns an error: assumed, listed.
+//@ func MustWriteUint64
+//@   property C08 C17
+//@   trusted
+//@ func MustWriteUint32
+//@   property C08 C17
+//@   trusted
+//@ func MustWriteVarBytes
+//@   property C08 C17
+//@   trusted
+//@ func MustWriteTombstone
+//@   property C08 C17
+//@   trusted
